@@ -241,6 +241,8 @@ def map_children(t: Term, fn: Callable[[Term], Term]) -> Term:
         return ("dict", tuple((fn(k), fn(v)) for k, v in t[1]))
     if tag == "star":
         return ("star", fn(t[1]))
+    if tag == "yields":
+        return ("yields", tuple((g, fn(a)) for g, a in t[1]), t[2])
     if tag == "elem":
         return ("elem", fn(t[1]), t[2])
     if tag == "idx":
@@ -339,6 +341,8 @@ def _show(t) -> str:
         return f"{l}{_show(t[2])} {gens}{r}"
     if tag == "phi":
         return "<" + " | ".join(f"{_show(a)} if {show_formula(g)}" for g, a in t[1]) + ">"
+    if tag == "yields":
+        return "<yields " + " | ".join(f"{_show(a)} if {show_formula(g)}" for g, a in t[1]) + ">"
     if tag == "loopvar":
         return f"<{t[1]}@loop{t[2]}>"
     if tag == "lambda":
@@ -933,6 +937,9 @@ class SymX:
             src = src[3][2][0]
             while src[0] == "call" and src[1] in (("builtin", "list"), ("builtin", "tuple"), ("builtin", "iter")) and len(src[2]) == 1:
                 src = src[2][0]
+        if src[0] == "yields":
+            self._assign(target, phi(list(src[1])) if src[1] else ("unk", "nothing yielded", 0), st, None)
+            return
         if src[0] == "comp" and src[1] in ("list", "gen", "set"):
             # iterating a comprehension: the loop variable is the comprehension's element, under its filters
             for _tg, _it, conds in src[3]:
@@ -942,8 +949,8 @@ class SymX:
             self._assign(target, src[2], st, None)
             return
         if src[0] == "call" and src[1] == ("builtin", "zip") and isinstance(target, (ast.Tuple, ast.List)) and len(target.elts) == len(src[2]):
-            for el, a in zip(target.elts, src[2]):
-                self._assign(el, ("elem", a, lid), st, None)
+            for i, el in enumerate(target.elts):
+                self._assign(el, ("idx", ("elem", src, lid), const(i)), st, None)
             return
         if src[0] == "call" and src[1] == ("builtin", "enumerate") and isinstance(target, (ast.Tuple, ast.List)) and len(target.elts) == 2 and src[2]:
             self._assign(target.elts[0], ("elem", ("call", ("builtin", "range"), (("call", ("builtin", "len"), (src[2][0],), ()),), ()), lid), st, None)
@@ -1395,6 +1402,24 @@ class SymX:
         return self._apply(fterm, args, kwargs, st, call)
 
     def _call_repo(self, callee: FuncInfo, call: ast.Call | None, recv: Term | None, args: tuple, kwargs: tuple, st: State) -> Term:
+        if _is_generator(callee) and self._may_enter(callee) and len(self.frames) <= self.max_depth and callee.fq not in [f.fi.fq for f in self.frames]:
+            # executed eagerly (the consumer is not a for loop of ours): the yielded values become a guarded collection
+            yielded: list[tuple[Formula, Term]] = []
+            base = len(st.pc)
+            gid = self.fresh()
+            loop = Loop(gid, "gen", ("fn", callee.fq), None, self.fi, call if call is not None else callee.node)
+
+            def collect(value: Term, gst: State) -> State:
+                yielded.append((simplify(f_and(gst.pc[base:])), value))
+                return gst
+
+            self.loops.append(loop)
+            try:
+                self._enter(callee, call, recv, args, kwargs, st, on_yield=collect)
+            finally:
+                self.loops.pop()
+            st.alive = True
+            return ("yields", tuple(yielded), gid)
         if _is_generator(callee) or not self._may_enter(callee) or len(self.frames) > self.max_depth or callee.fq in [f.fi.fq for f in self.frames]:
             if callee.cls is not None and recv is not None and not callee.is_staticmethod and callee.outer is None:
                 res: Term = ("mcall", recv, callee.name, args, kwargs)
